@@ -212,6 +212,11 @@ def check_sample(act, smp, rest_lists, ratios, out, targets=None):
                 tf = float(t)
             except Exception:
                 tf = float("nan")
+            # at target == A(0) up to the rounding of the summed activity either outcome is right
+            # (A(0) is re-summed by the code in a different order / from another rest time)
+            boundary = abs(A0 - target) <= 1e-9 * max(A0, target)
+            if boundary and (tf == 0 or (tf > 0 and abs(total_activity(A0T, tf) - target) <= TOL * target)):
+                continue
             if A0 <= target:
                 if not (tf == 0):
                     _add(out, "nonzero_at_or_below_target", tag,
